@@ -47,6 +47,15 @@ def case_s2(ctx, rng, wd, sparse):
                         lmax=(25 if sparse else 8) * ((N / 20.0) ** (1.0 / d) if bigsys else 1.0))
     types = gc.make_types(rng, N, K)
     Kr = len(np.unique(types))
+    gap_labels = False
+    if rng.random() < 0.2:
+        # a sample that holds only SOME species of the force field (labels 1 and 3 of three, or only label 2): the width table is
+        # indexed by the labels themselves
+        gap_labels = True
+        Kr = int(types.max()) + int(rng.integers(1, 3))
+        remap = np.sort(rng.choice(np.arange(1, Kr + 1), size=len(np.unique(types)), replace=False))
+        types = remap[np.searchsorted(np.unique(types), types)]
+        ctx.count("s2_species_labels_with_gaps")
     # sheared trajectories (equal edge lengths, an own tilt per frame): every frame has its own cell matrix
     shear = cellkind == "tri" and frames > 1 and rng.random() < 0.5
     cells = [cell] + [gc.retilt(rng, cell) if shear else cell for _ in range(frames - 1)]
